@@ -244,7 +244,8 @@ def run_native(top, registry, state, extra_check=None):
             return {'outcome': 'precondition-false'}
     except Exception as e:
         return {'outcome': 'error', 'detail': f'requires: {e!r}'}
-    old = types.SimpleNamespace(**snapshot(dict(env)))
+    # entry by entry: an object that cannot be deep-copied (pyee emitters) must not make `old.ghost` alias the live ghost
+    old = types.SimpleNamespace(**{k: snapshot(v) for k, v in env.items()})
     is_lemma = isinstance(top, C.Lemma)
     exc = None
     res = None
